@@ -33,6 +33,21 @@ class E1(enum.IntEnum):
     seven = 7
 
 
+class E2(enum.IntEnum):
+    one = 1
+    two = 2
+    uno = 1         # an alias of `one`: iterating the class yields canonical members only, and so does the merge
+    seven = 7
+
+
+class F2(enum.IntFlag):
+    one = 1
+    two = 2
+    eight = 8
+    both = 3        # a composite member: not a canonical member either (Python >= 3.11)
+    none = 0
+
+
 class F1(enum.IntFlag):
     one = 1
     two = 2
@@ -99,6 +114,19 @@ def law_if(p):
     return [C.If(c, x), C.IfThenElse(c, x, C.Pass)], None, "any"
 
 
+def law_if_member(p):
+    """the same law where the conditional is a member of a Struct or Sequence (built from dicts/lists that may lack its key)"""
+    sub, form = p
+    def cond():
+        return this.a > 0
+    x = SUBS[sub]
+    if form == "named":
+        return [C.Struct("a" / C.Byte, "b" / C.If(cond(), x())), C.Struct("a" / C.Byte, "b" / C.IfThenElse(cond(), x(), C.Pass))], None, "dictany"
+    if form == "anonymous":
+        return [C.Struct("a" / C.Byte, C.If(cond(), x())), C.Struct("a" / C.Byte, C.IfThenElse(cond(), x(), C.Pass))], None, "dictany"
+    return [C.Sequence("a" / C.Byte, C.If(cond(), x())), C.Sequence("a" / C.Byte, C.IfThenElse(cond(), x(), C.Pass))], None, "list"
+
+
 def law_padding(p):
     n, pattern = p
     return [C.Padding(n, pattern=pattern), C.Padded(n, C.Pass, pattern=pattern)], n, "none"
@@ -153,6 +181,12 @@ def law_enum(p):
         return [C.FlagsEnum(s, F1), C.FlagsEnum(s, one=1, two=2, eight=8)], None, "flags"
     if flags == "enum-intflag":
         return [C.Enum(s, F1), C.Enum(s, one=1, two=2, eight=8)], None, "label"
+    if flags == "enum-alias":
+        return [C.Enum(s, E2), C.Enum(s, one=1, two=2, seven=7)], None, "label"
+    if flags == "enum-composite-flag":
+        return [C.Enum(s, F2), C.Enum(s, **{m.name: m.value for m in F2})], None, "label"
+    if flags == "flags-composite-flag":
+        return [C.FlagsEnum(s, F2), C.FlagsEnum(s, **{m.name: m.value for m in F2})], None, "flags"
     return [C.Enum(s, E1), C.Enum(s, one=1, two=2, seven=7)], None, "label"
 
 
@@ -228,7 +262,7 @@ SUBS = {
 }
 
 LAWS = {"bytesint_bits": law_bytesint_bits, "int24": law_int24, "alias": law_alias, "short": law_short, "floatalias": law_floatalias,
-        "bitalias": law_bitalias, "optional": law_optional, "if": law_if, "padding": law_padding, "prefixedarray": law_prefixedarray, "prefixedarray-lazyparent": law_prefixedarray_lazyparent,
+        "bitalias": law_bitalias, "optional": law_optional, "if": law_if, "if-member": law_if_member, "padding": law_padding, "prefixedarray": law_prefixedarray, "prefixedarray-lazyparent": law_prefixedarray_lazyparent,
         "bitstruct": law_bitstruct, "alignedstruct": law_alignedstruct, "enum": law_enum, "hex": law_hex, "operators": law_operators,
         "restreamed": law_restreamed}
 
@@ -257,6 +291,9 @@ def instances():
     for cond in ("true", "false", "this", "lambda"):
         for sub in ("Byte", "Int16sl", "CString", "Struct", "Const", "GreedyBytes"):
             out.append(("if", [cond, sub]))
+    for sub in ("Byte", "Int16sl", "CString", "Struct", "Const", "Computed"):
+        for form in ("named", "anonymous", "sequence"):
+            out.append(("if-member", [sub, form]))
     for n in (0, 1, 2, 5):
         for pat in (b"\x00", b"\xff", b"x"):
             out.append(("padding", [n, pat]))
@@ -273,7 +310,7 @@ def instances():
         for subs in (["Byte"], ["Byte", "Int16ub"], ["Int24ub", "Byte", "CString"], ["VarInt", "Flag"]):
             out.append(("alignedstruct", [m, subs]))
     for sub in ("Byte", "Int16ul", "VarInt"):
-        for flags in ("enum-intenum", "enum-intflag", "flags-intenum", "flags-intflag"):
+        for flags in ("enum-intenum", "enum-intflag", "flags-intenum", "flags-intflag", "enum-alias", "enum-composite-flag", "flags-composite-flag"):
             out.append(("enum", [sub, flags]))
     for kind in ("hex", "hexdump"):
         for sub in ("Byte", "Int16sl", "Bytes2", "Struct", "VarInt", "Float32b", "CString"):
@@ -328,19 +365,20 @@ def values_for(kind, layout):
     if kind == "none":
         return [None, 0, b"", b"\x00", "x", {}]
     if kind == "list":
-        return [[], [1], [1, 2], [1, 2, 3], [300], [-1], ["a"], ["a", "bc"], [b"ab"], [dict(x=1, y=b"a")], [True, False], None, 5, [None], [1] * 300, (1, 2), "ab", b"ab", [1.5]]
+        return [[], [1], [1, 2], [1, 2, 3], [300], [0], [0, None], [0, 5], [1, None], [-1], ["a"], ["a", "bc"], [b"ab"], [dict(x=1, y=b"a")], [True, False], None, 5, [None], [1] * 300, (1, 2), "ab", b"ab", [1.5]]
     if kind == "label":
-        return ["one", "two", "seven", "eight", "three", "", 1, 2, 7, 8, 3, 0, 255, 256, -1, 65536, None, 1.0, b"one", E1.one, E1.seven, F1.eight, F1.one | F1.two, True, "one|two"]
+        return ["one", "two", "seven", "eight", "three", "", 1, 2, 7, 8, 3, 0, 255, 256, -1, 65536, None, 1.0, b"one", E1.one, E1.seven, F1.eight, F1.one | F1.two, True, "one|two",
+                "uno", "both", "none", E2.uno]
     if kind == "flags":
         return ["one", "two", "one|two", "one | seven", "eight|one", "three", "", 0, 1, 3, 7, 8, 255, 256, -1, None, dict(one=True), dict(one=True, two=False), dict(seven=True, eight=True),
-                dict(three=True), dict(three=False), dict(_x=True, one=1), E1.one, F1.one | F1.eight, 1.0, ["one"], b"one"]
+                dict(three=True), dict(three=False), dict(_x=True, one=1), E1.one, F1.one | F1.eight, 1.0, ["one"], b"one", "both", "none", dict(both=True)]
     if kind == "dictany":
         base = [1, 0, 255, 256, -1, 65535, "a", "", b"ab", b"", True, None, 1.5, dict(x=1, y=b"a"), dict(x=0, y=b""), 2 ** 24 - 1, 2 ** 24]
         out = []
         for a in base:
             for b in base[:8]:
                 out.append(dict(a=a, b=b, c=a, num=a, f0=a, f1=b, f2=a))
-        return out + [{}, None, dict(a=1), dict(num=1)]
+        return out + [{}, None, dict(a=1), dict(num=1), dict(a=0), dict(a=0, c=1), dict(a=2), dict(b=1)]
     # any
     return [None, 0, 1, 255, 256, -1, 65535, 65536, -32768, -32769, True, 1.5, float("nan"), "", "a", "aé", "a\x00b", b"", b"ab", b"abc", b"\x01", [], {}, dict(x=1, y=b"a"), dict(x=2, y=b"a"), dict(n=1, d=[5]),
             dict(n=1, d=b"a"), dict(n=0, d=[]), dict(n=2, d=[1]), "a" * 300, 7]
